@@ -249,6 +249,48 @@ fn main() {
             println!("result={}", names[code as usize]);
             println!("value={}", if val.is_empty() { "-".to_string() } else { tohex(&val[..1]) });
         }
+        // version_builder @level files... --delete level:number ... --add @level files...
+        "version_builder" => {
+            let mut base_toks: Vec<&str> = vec![];
+            let mut del: Vec<(usize, u64)> = vec![];
+            let mut add_toks: Vec<&str> = vec![];
+            let mut mode = 0;
+            for t in &a[1..] {
+                match *t {
+                    "--delete" => mode = 1,
+                    "--add" => mode = 2,
+                    _ => match mode {
+                        0 => base_toks.push(*t),
+                        1 => {
+                            let p: Vec<&str> = t.split(':').collect();
+                            del.push((num(p[0]) as usize, num(p[1])));
+                        }
+                        _ => add_toks.push(*t),
+                    },
+                }
+            }
+            std::panic::set_hook(Box::new(|_| {}));
+            match v::version_builder_apply(opts(), &levels(&base_toks), &del, &levels(&add_toks)) {
+                Ok(lv) => {
+                    println!("panicked=false");
+                    for (i, l) in lv.iter().enumerate() {
+                        println!("l{}={}", i, join(l));
+                    }
+                }
+                Err(msg) => {
+                    println!("panicked=true");
+                    println!("panic_message={}", msg.replace('=', ":"));
+                }
+            }
+        }
+        // live_files : files at levels 0, 3 and 6; does get_live_files report all of them?
+        "live_files" => {
+            let mk = |n: u64, k: u8| -> v::VFile { (n, 100, (vec![k], 9), (vec![k + 1], 8)) };
+            let lv = vec![(0usize, vec![mk(10, 1)]), (3usize, vec![mk(13, 10)]), (6usize, vec![mk(16, 20)])];
+            let (installed, live) = v::vset_live_files(opts(), &lv);
+            println!("installed={}", join(&installed));
+            println!("live={}", join(&live));
+        }
         // snapshot_roundtrip @level files...
         "snapshot_roundtrip" => {
             let lv = levels(&a[1..]);
